@@ -790,6 +790,24 @@ def main():
             roles[mem["id"]] = "unclassified"
         else:
             roles[mem["id"]] = c["class"]
+            if mem["kind"] == "objstack" and c["class"] == "cache" and funcs[("OSC", "zeroes")]:
+                # XalanObjectStackCache::reset() zeroes m_numObjectsOnStack (proposed/C06-objstack-reset.diff applied):
+                # the member is restored by reset like every other stack, so it is held to the transient standard
+                roles[mem["id"]] = "transient"
+    # members declared unused: no mention outside the declaration and the constructor init lists
+    for key, c in classification.items():
+        if not c.get("unused"):
+            continue
+        tag, name = key.split(".", 1)
+        if tag not in src or (tag, name) not in M.index:
+            continue
+        hdr, cpp = src[tag][0], src[tag][1]
+        in_hdr = len(re.findall(r"\b%s\b" % name, hdr))
+        in_cpp = len(re.findall(r"\b%s\b" % name, cpp))
+        in_init = len(re.findall(r"^\s*%s\s*\(" % name, cpp, re.M))
+        if in_hdr != 1 or in_cpp != in_init:
+            raise TErr("%s is classified as unused but is mentioned %d time(s) in the header and %d time(s) outside init lists" % (
+                key, in_hdr, in_cpp - in_init))
     stale = [k for k in classification if tuple(k.split(".", 1)) not in M.index]
 
     ROLE_CTOR = {"transient": ".transient", "percall": ".perCall", "sticky": ".sticky", "config": ".config",
